@@ -54,6 +54,10 @@ type pcModel struct {
 	nTx     uint64
 	nClass  uint64
 	allTx   []*pcTx
+
+	// feeder class of C20 (c20feeder.go): makes a generated class one that a gateway can transport (the
+	// adapter recomputes ProgramHash and AbiHash from what is on the wire); nil elsewhere
+	realise func(*core.SierraClass)
 }
 
 func newPcModel(t *tape.Tape, addrs, slots []felt.Felt) *pcModel {
@@ -88,6 +92,9 @@ func (m *pcModel) newClass() (felt.Felt, felt.Felt) {
 			L1Handler:       []core.CasmEntryPoint{},
 			Constructor:     []core.CasmEntryPoint{},
 		},
+	}
+	if m.realise != nil {
+		m.realise(c)
 	}
 	h, err := c.Hash()
 	if err != nil {
